@@ -3,8 +3,10 @@ C17 helper lemmas, part 1: the cursor primitives of `xml.rs` on rendered childre
 (`flat segs`), leaf parsers on rendered leaves, literal tables.
 -/
 import CamVerif.Spec.XmlRender
+set_option linter.unusedSectionVars false
 namespace CamVerif.XmlParse
 variable {F : Type}
+variable [TextFrag]
 
 /-! ### `flat` -/
 
@@ -157,14 +159,10 @@ theorem next_node (tag : Str) (b : Body) (rest : Cur) (st : St F) :
 /-! ### text view and leaves -/
 
 @[simp] theorem textView_tb (s : Str) : textView (tb s).2 = .ok s := by
-  unfold tb; split
-  · subst_vars; rfl
-  · simp [textView, concatText]
+  simp [textView, tb, TextFrag.view]
 
 @[simp] theorem textView_ntb (n s : Str) : textView (ntb n s).2 = .ok s := by
-  unfold ntb; split
-  · subst_vars; rfl
-  · simp [textView, concatText]
+  simp [textView, ntb, TextFrag.view]
 
 theorem nextText_body (tag : Str) (b : Body) (s : Str) (hb : textView b.2 = .ok s) (rest : Cur)
     (st : St F) : nextText (mkNode tag b :: rest) st = .ok (s, rest, st) := by
